@@ -196,6 +196,12 @@ def _cycle_check(ctx: Ctx, c: Collector) -> None:
         else:
             simv, descs = dec[1], dec[2]
             entry = ("idx", descs, simv)
+            # `e = descs.get(sim); if e is None: continue` is `if sim not in descs: continue` (entries are tuples)
+            got = call(("attr", descs, "get"), simv)
+            norm = {got: entry}
+            gts = [T.replace(x, norm) for x in gts]
+            gts = [("cmp", "in", simv, descs) if x == ("cmp", "isnot", entry, T.NONE) else x for x in gts]
+            r = Event(r.idx, r.kind, T.replace(r.term, norm), r.raw, r.node, r.stmt, r.guards, r.iters, r.tries, r.awaited, r.extra)
             delay = ("idx", entry, T.const(0))
             pathv = ("idx", entry, T.const(1))
             if ("cmp", "in", simv, descs) not in gts:
@@ -307,6 +313,14 @@ def _ancestors(ctx: Ctx, c: Collector) -> None:
             if T.strip(g[1]) in whiles or gt in whiles:
                 continue
             if any(x[0] == "call" and x[1] == T.glob(UPDATE_MIN) for x in T.subterms((gt,))):
+                continue
+            # "there is something to iterate over" is no condition: the loop over an empty table does nothing anyway
+            tables_iterated = set()
+            for it in e.iters:
+                d = items_iter(it) if it[1] != ("while",) else None
+                if d is not None:
+                    tables_iterated.add(T.strip(d[0]))
+            if gt in tables_iterated:
                 continue
             extra.append(T.show(gt)[:60])
         if extra:
@@ -440,7 +454,32 @@ def _interval(ctx: Ctx, c: Collector) -> None:
         return r if r is not None else generator_chain(t)
 
     idx_calls = [e for e in gs.of_kind("call") if e.term[1][0] == "attr" and e.term[1][2] == "index" and len(e.term[2]) == 1]
-    if not idx_calls:
+
+    def climber(var: Term, start: Term, evs) -> bool:
+        """`var` starts at `start` and is advanced by `var = var.parent` inside the loop of the events."""
+        inits = [b for b in gs.of_kind("bind") if b.term[1] == var and b.term[2] == start and not b.iters]
+        steps = [b for b in gs.of_kind("bind") if b.term[1] == var and b.term[2] == ("attr", var, "parent") and b.iters and b.iters == evs.iters]
+        return bool(inits) and bool(steps) and inits[-1].idx < evs.idx
+
+    # form C: a table group -> number of levels above the source (filled while climbing from the source), probed
+    # while climbing from the destination
+    fills = [e for e in gs.of_kind("store") if e.term[1][0] == "idx" and e.term[1][1][0] == "var" and e.term[2] == call(T.glob("len"), e.term[1][1]) and e.iters]
+    probes = [e for e in gs.of_kind("call") if fills and e.term[1] == ("attr", fills[0].term[1][1], "get") and len(e.term[2]) == 1 and e.iters]
+    if not idx_calls and fills and probes:
+        f, pz = fills[0], probes[0]
+        gvar_s, gvar_d = f.term[1][2], pz.term[2][0]
+        empty_init = any(b.term[1] == f.term[1][1] and T.strip(b.term[2]) == ("dict", ()) and not b.iters for b in gs.of_kind("bind"))
+        if not (empty_init and climber(gvar_s, srcp, f)):
+            pr.append("the table of ancestors is not filled with the source group and every parent, numbered from 0")
+        if not climber(gvar_d, destp, pz):
+            pr.append("the candidates for the common group are not the destination group and its parents, innermost first")
+        okret = any(r.term[0] == "tuple" and len(r.term[1]) == 3 and unalias(r.term[1][0], gs, gfi) == pz.term and r.term[1][2] == gvar_d
+                    and ("cmp", "isnot", pz.term, T.NONE) in [unalias(x, gs, gfi) for x in guard_terms(r.guards)] for r in rts)
+        if not okret:
+            pr.append("does not return (levels above the source, descent, common group) for the first destination ancestor found in the table")
+        if not any(e.kind == "raise" and not e.iters for e in gs.events):
+            pr.append("two groups without a common ancestor do not raise")
+    elif not idx_calls:
         pr.append("the common group is not looked up in the source's ancestor chain")
     else:
         look = idx_calls[0]
